@@ -682,8 +682,36 @@ def rule_state(repo, tier):
     return res
 
 
+@guarded
+def rule_query(repo, tier):
+    """continual() is a QUERY: the driver loops, user code and the `Continual` wrapper read it any number of times per step.  It returns the flag and changes nothing:
+    no attribute store, no call of reset() / step() or any other method of the controller.  A read that re-arms the controller ("ready for re-use after the
+    loop") makes the second read after a stop True again."""
+    res = RuleResult('C20.QUERY', 'the continual() queries of the stepper and the scheduler are pure reads: no attribute store and no call of a state-changing method of '
+                     'the controller', floor=2)
+    targets = []
+    for modname in (STEP, SCHED):
+        for f in repo.module(modname).functions.values():
+            if f.name in ('continual', 'iscontinual') or (f.name == '__call__' and f.qual.split('.')[-2:-1] == ['Continual']):
+                targets.append(f)
+    if len(targets) < 2:
+        raise AnalysisError('C20.QUERY: the continual() queries were not found (%d)' % len(targets))
+    for f in targets:
+        stores = [n for n in ast.walk(f.node) if isinstance(n, ast.Attribute) and isinstance(n.ctx, (ast.Store, ast.Del))]
+        calls = [c for c in ast.walk(f.node) if isinstance(c, ast.Call) and isinstance(c.func, ast.Attribute) and isinstance(c.func.value, ast.Name) and c.func.value.id == 'self'
+                 and c.func.attr not in ('continual', 'iscontinual')]
+        calls += [c for c in ast.walk(f.node) if isinstance(c, ast.Call) and isinstance(c.func, ast.Attribute) and c.func.attr in ('reset', 'step', 'zero_', 'fill_', 'copy_', 'add_')]
+        res.inst({'function': f.fq, 'attribute stores': len(stores), 'calls of controller methods': [src(c)[:40] for c in calls]}, f.fq)
+        for n in stores[:1]:
+            res.add(Finding('C20.QUERY', f, '%s writes `%s`: the query changes the state it reports' % (f.fq.split(':')[-1], src(n)[:40]), node=n, construct='query writes state'))
+        for c in calls[:1]:
+            res.add(Finding('C20.QUERY', f, '%s calls `%s`: reading the flag re-arms / advances the controller, so after a stop the next read reports True again and the step '
+                            'budget starts over' % (f.fq.split(':')[-1], src(c)[:40]), node=c, construct='query calls a state-changing method'))
+    return res
+
+
 def _rules_core(repo, tier):
-    return [rule_state(repo, tier), rule_latch(repo, tier), rule_reset(repo, tier), rule_budget(repo, tier), rule_pat(repo, tier), rule_drv(repo, tier),
+    return [rule_state(repo, tier), rule_query(repo, tier), rule_latch(repo, tier), rule_reset(repo, tier), rule_budget(repo, tier), rule_pat(repo, tier), rule_drv(repo, tier),
             rule_clause(repo, tier)]
 
 
